@@ -59,7 +59,7 @@ def run(ctx, out):
     quick = ctx.tier == "quick"
     # ── printer: every path, several prefix maps ─────────────────────────────────────────────
     preds = PREDS[:2] + [SUB["q"], URIRef("http://ex.test/a.b"), URIRef("http://ex.test/x-y")]
-    paths = pathgen.enum_paths(PREDS[:2], 1) + [pathgen.rand_path(rng, preds, rng.choice((2, 3, 4))) for _ in range(100 if quick else 2500)]
+    paths = pathgen.enum_paths(PREDS[:2], 1) + [pathgen.rand_path(rng, preds, rng.choice((2, 3, 4))) for _ in range(100 if quick else 800)]
     prefix_maps = [{}, {"ex": str(EX)}, {"ex": "http://ex.tes", "e2": str(EX)}, {"": str(EX), "s": str(SUB)}]
     plines, pmeta = [], {}
     for i, a in enumerate(paths):
@@ -70,15 +70,15 @@ def run(ctx, out):
         pmeta[cid] = (a, sg, node, pm)
         plines.append("%s printpath %s NPFX %d %s SG %s" % (cid, wire.term(node), len(pm), " ".join("%s %s" % (wire.esc(k), wire.esc(v)) for k, v in pm.items()), wire.graph(sg)))
     # ── metamorphic cases ──────────────────────────────────────────────────────────────────────
-    cases = c04.gen_cases(rng, 30 if quick else 900, 3)
-    for _ in range(70 if quick else 2200):
+    cases = c04.gen_cases(rng, 30 if quick else 250, 3)
+    for _ in range(70 if quick else 600):
         data = shapegen.gen_data(rng)
         gen = shapegen.ShapeGen(rng, data)
         for _ in range(rng.randint(1, 3)):
             gen.shape(complex_path=0.45)
         cases.append(("core", gen.g, graph_from_triples(data)))
     # sparse value nodes under sh:closed / property pairs (unbound OPTIONALs in the batched queries)
-    for _ in range(25 if quick else 500):
+    for _ in range(25 if quick else 150):
         data = shapegen.gen_data(rng, n=rng.choice((3, 5)), literal_bias=0.2)
         gen = shapegen.ShapeGen(rng, data)
         s = gen.shape(is_prop=rng.random() < 0.7, n_constraints=0)
@@ -93,7 +93,7 @@ def run(ctx, out):
     cases.insert(0, ("corpus:falsy-literal", wsg, graph_from_triples([(BNode("d1"), PREDS[0], Literal(False)), (NODES[1], PREDS[0], Literal("fast"))])))
     # several values per target kind, different counts per kind (the VALUES clause of the sparql_mode target query)
     from common import CLASSES
-    for _ in range(30 if quick else 400):
+    for _ in range(30 if quick else 120):
         data = shapegen.gen_data(rng, literal_bias=0.3)
         gen = shapegen.ShapeGen(rng, data)
         s = gen.shape(is_prop=False, n_constraints=1, with_targets=False)
